@@ -345,6 +345,7 @@ where
         force_drain: false,
         trace: Some(vec![]),
         snapshot: None,
+        pending_order_off: false,
     };
     src.trace = Some(vec![]);
     src.order_on = true;
